@@ -12,6 +12,7 @@ import (
 	"encoding/hex"
 	"fmt"
 	"math/rand/v2"
+	"regexp"
 	"sort"
 	"strconv"
 	"strings"
@@ -611,6 +612,27 @@ func vErrClass(err error) string {
 	return "err=other:" + hex.EncodeToString([]byte(msg))
 }
 
+var (
+	vReCycConn = regexp.MustCompile(`^connector "k(\d+)" \((\w+) to (\w+)\)$`)
+	vReCycProc = regexp.MustCompile(`^processor "k(\d+)" in pipeline "(\w+)/(\d+)"$`)
+)
+
+// vCycleTokens: the cycle printed by cycleErr as node tokens (c<id>:<es><rs>, p<id>@<sig>.<name>); "?" for an unparsable element.
+func vCycleTokens(msg string) []string {
+	sig := map[string]int{"traces": 0, "metrics": 1, "logs": 2, "profiles": 3}
+	var toks []string
+	for _, el := range strings.Split(strings.TrimPrefix(msg, "cycle detected: "), " -> ") {
+		if m := vReCycConn.FindStringSubmatch(el); m != nil {
+			toks = append(toks, fmt.Sprintf("c%s:%d%d", m[1], sig[m[2]], sig[m[3]]))
+		} else if m := vReCycProc.FindStringSubmatch(el); m != nil {
+			toks = append(toks, fmt.Sprintf("p%s@%d.%s", m[1], sig[m[2]], m[3]))
+		} else {
+			toks = append(toks, "?")
+		}
+	}
+	return toks
+}
+
 func vBuild(set Settings) (g *Graph, err error) {
 	defer func() {
 		if r := recover(); r != nil {
@@ -709,6 +731,9 @@ func TestVerifC09Graph(t *testing.T) {
 			}
 		}
 		if err != nil {
+			if cls == "err=cycle" {
+				out.Linef("tr cycle %s", strings.Join(vCycleTokens(err.Error()), " "))
+			}
 			if len(w.creates)+len(w.procs) > 0 {
 				out.Linef("viol sig=C09/reject/components-created-before-rejection creates=%d", len(w.creates)+len(w.procs))
 			}
